@@ -781,7 +781,9 @@ def r01_14(rep, M, rid):
     else:
         rep.ok(rid, f"get_clusters: `{norm(t.test)}` holds whenever an atom lies outside [0, 1] along a non-periodic axis ({len(grid)}x{len(grid)} sign patterns)")
     cen = [c for c in ast.walk(fn) if isinstance(c, ast.Call) and isinstance(c.func, ast.Attribute) and c.func.attr == "center"]
-    setc = [c for c in ast.walk(fn) if isinstance(c, ast.Call) and isinstance(c.func, ast.Attribute) and c.func.attr == "set_cell" and c.args and norm(c.args[0]) == "new_cell"]
+    # the array whose rows the enlargement scales is the one handed to set_cell
+    scaled = {norm(s2.target.value) for s2 in t.body if isinstance(s2, ast.AugAssign) and isinstance(s2.op, ast.Mult) and isinstance(s2.target, ast.Subscript)}
+    setc = [c for c in ast.walk(fn) if isinstance(c, ast.Call) and isinstance(c.func, ast.Attribute) and c.func.attr == "set_cell" and c.args and norm(c.args[0]) in scaled]
     if cen and setc:
         rep.ok(rid, "get_clusters: the enlarged cell is set and the atoms are centred in it")
     else:
